@@ -365,3 +365,117 @@ func vh_C20_L7_deadline_goroutine_keeps_terminal_error() { vh_C18_L4_read_deadli
 func vh_C20_L8_teardown_releases_every_parked_writer() {
 	vh_C09_L11_teardown_closes_the_writers_channel()
 }
+
+// C20.L9: a blocking write that fails after having waited, while other calls go on around it.
+// Blocking-write mode; a first message is waiting (the gate is closed); a second write, with
+// a deadline, parks behind the gate. While it is parked another goroutine may flip the
+// stream's ordered/unordered setting; then the writer drains the queue (one hand-over token
+// is posted); the deadline expires either while the write is still parked, or at any
+// lock-free point after it has been handed the token (one context switch). Whichever way
+// it ends:
+//   - a failed write gives back exactly the sequence number / message identifier it had
+//     taken (decided when the message was packetized, not by the setting at the time of the
+//     failure) and queues nothing;
+//   - the hand-over is not lost: afterwards the gate is either claimed (writePending) or the
+//     token is there for the next writer that is blocked behind it.
+func vh_C20_L9_parked_write_fails_while_others_go_on() {
+	vGoLive = true
+	il := vPick(2) == 1
+	a, _ := vNewAssocOpts(vAssocOpts{blockWrite: true, interleaving: il})
+	s, err := a.OpenStream(1, PayloadTypeWebRTCBinary)
+	vassert(err == nil, "open stream")
+	s.SetReliabilityParams(vPick(2) == 1, ReliabilityTypeReliable, 0)
+	_, w1 := s.WriteSCTP([]byte{1}, PayloadTypeWebRTCBinary)
+	vassert(w1 == nil && a.writePending, "first message waiting, the gate is closed")
+	a.cwnd, a.rwnd = 1<<20, 1<<20
+	ssn, omid, umid := s.sequenceNumber, s.nextOrderedMID, s.nextUnorderedMID
+	vassert(s.SetWriteDeadline(time.Now().Add(time.Hour)) == nil, "write deadline armed")
+	flip := vPick(2) == 1
+	expireParked := vPick(2) == 1
+	vGo(func() {
+		vSleep(50 * time.Millisecond) // the second write is parked by now
+		if flip {
+			s.lock.RLock()
+			u := s.unordered
+			s.lock.RUnlock()
+			s.SetReliabilityParams(!u, ReliabilityTypeReliable, 0)
+		}
+		if expireParked {
+			_ = s.SetWriteDeadline(time.Now().Add(-time.Second))
+		} else {
+			_ = vWriterPass(a) // the queue drains: the parked writer is handed the token
+		}
+	})
+	if !expireParked {
+		// ... and its deadline may pass at any point after that where the writer holds nothing
+		// but its stream's write lock (which setting a deadline does not need)
+		vPreemptIgnoreRank = 0
+		vPreemptWith(func() {
+			if !a.writePending && a.pendingQueue.size() == 0 {
+				_ = s.SetWriteDeadline(time.Now().Add(-time.Second))
+			}
+		})
+	}
+	n, w2 := s.WriteSCTP([]byte{2, 3}, PayloadTypeWebRTCBinary)
+	vPreemptBody = nil
+	if w2 != nil {
+		vassert(n == 0, "a failed write transfers nothing")
+		vassert(s.sequenceNumber == ssn && s.nextOrderedMID == omid && s.nextUnorderedMID == umid, "a failed write gives back exactly the sequence number or message identifier it had taken, whatever the stream's setting is by then")
+		if expireParked {
+			vassert(a.pendingQueue.size() == 1, "and queues nothing")
+		} else {
+			vassert(a.pendingQueue.size() == 0, "and queues nothing")
+			vassert(a.writePending || len(a.writeNotify) == 1, "the hand-over token is not lost: the next writer blocked behind the gate can proceed")
+		}
+	} else {
+		vassert(n == 2 && a.writePending && a.pendingQueue.size() == 1, "an accepted write is queued and claims the gate")
+	}
+	a.closeWriteLoopOnce.Do(func() { close(a.closeWriteLoopCh) })
+	vcover("end")
+}
+
+// C20.L10: a wake-up is never slept through. The real write loop runs live; while it is
+// inside the transport's Write for a first message, another goroutine calls the API (a
+// second write, Shutdown, or a stream close): the work queued by that call goes on the wire
+// without waiting for any timer.
+func vh_C20_L10_call_during_a_transport_write_is_served() {
+	vGoLive = true
+	conn := &vConn{}
+	cfg := &Config{NetConn: conn, LoggerFactory: vLoggerFactory{}, Name: "v"}
+	a := createAssociationFromConfigWithTsn(cfg, []uint32{0xfffffffe, 5}[vPick(2)])
+	a.payloadQueue = newReceivePayloadQueue(192)
+	a.peerVerificationTag = 7
+	a.sourcePort, a.destinationPort = 5000, 5000
+	a.setState(established)
+	a.cwnd, a.rwnd = 1<<20, 1<<20
+	s, err := a.OpenStream(1, PayloadTypeWebRTCBinary)
+	vassert(err == nil, "open stream")
+	what := vPick(3)
+	conn.onWrite = func() {
+		switch what {
+		case 0:
+			_, _ = s.WriteSCTP([]byte{2}, PayloadTypeWebRTCBinary)
+		case 1:
+			_ = a.Shutdown(vNewClosedCtx())
+		case 2:
+			_ = s.Close()
+		}
+	}
+	vGo(a.writeLoop)
+	_, werr := s.WriteSCTP([]byte{1}, PayloadTypeWebRTCBinary)
+	vassert(werr == nil, "write accepted")
+	<-time.After(100 * time.Millisecond) // far less than any retransmission or probe timer
+	a.lock.RLock()
+	inflight, pending, state, nreq := a.inflightQueue.size(), a.pendingQueue.size(), a.getState(), len(a.reconfigs)
+	a.lock.RUnlock()
+	switch what {
+	case 0:
+		vassert(inflight == 2 && pending == 0, "a write made while the writer was inside the transport is sent at once")
+	case 1:
+		vassert(state == shutdownPending || state == shutdownSent, "shutdown has begun")
+	case 2:
+		vassert(nreq == 1 && pending == 0, "the reset request for a stream closed while the writer was inside the transport is sent at once")
+	}
+	a.closeWriteLoopOnce.Do(func() { close(a.closeWriteLoopCh) })
+	vcover("end")
+}
